@@ -10,7 +10,8 @@ Record case := mk_case {
   c_tbl : table; c_now : Z; c_chain : list cel; c_fin : fin;
   (* observed from gorm *)
   k_ret : rec; k_rets : list rec (* the caller's slice after Save(&slice) *); k_ra : Z; k_err : bool; k_writes : Z; k_tbl : table;
-  k_setup_failed : bool     (* the harness could not set the table up / dump it *)
+  k_setup_failed : bool;    (* the harness could not set the table up / dump it *)
+  k_ra_judged : bool        (* false: DO NOTHING slice create on a RETURNING dialect (see C16_Spec.spec_oc_slice) *)
 }.
 
 Definition obs_of (c : case) : obs := mk_obs (k_ret c) (k_ra c) (k_err c) (k_writes c) (k_tbl c).
@@ -23,12 +24,12 @@ Definition model_agrees (c : case) : bool :=
   && Bool.eqb (k_err c) (res_err m)
   && (k_err c || rec_eqb (k_ret c) (res_ret m))
   && list_eqb rec_eqb (k_rets c) (step_rets (c_tbl c) (c_now c) (c_fin c))
-  && (k_ra c =? res_ra m)
+  && (negb (k_ra_judged c) || (k_ra c =? res_ra m))
   && (k_writes c =? res_writes m)
   && tbl_eqb (k_tbl c) (res_tbl m).
 
 Definition spec_holds (c : case) : bool :=
   negb (k_setup_failed c)
-  && spec_case (c_tbl c) (c_now c) (c_chain c) (c_fin c) (k_rets c) (obs_of c).
+  && spec_case (c_tbl c) (c_now c) (c_chain c) (c_fin c) (k_rets c) (k_ra_judged c) (obs_of c).
 
 Definition check_case (c : case) : N := code_of (model_agrees c) (spec_holds c).
